@@ -8,8 +8,9 @@ import random
 LEVEL = 'fault_enumeration'
 RULE = ('(i) real -j children crashed at every crash point of a skeleton '
         '(module import, each layer setUp/tearDown, each test '
-        'setUp/body/tearDown, the report) x {exit0, exit3, SIGKILL, '
-        'SIGSEGV}; (ii) the real report of a child cut at EVERY byte offset '
+        'setUp/body/tearDown, the report) x {os._exit 0/3, SIGKILL, '
+        'SIGSEGV, KeyboardInterrupt, SystemExit(0/7) escaping from a layer '
+        'hook}; (ii) the real report of a child cut at EVERY byte offset '
         '(reports with 0, 1, 3 names exhaustively; 50 names sampled in '
         'quick, exhaustive in thorough); (iii) a scripted fake child '
         'spawned by the real parent (run_internal script_parts): well-formed '
@@ -166,8 +167,13 @@ def run_crash(case, ctx):
     root = vworld.materialise(spec)
     sigs = []
     try:
-        for pt in rng.sample(points, 4):
-            how = rng.choice(['exit0', 'exit3', 'SIGKILL', 'SIGSEGV'])
+        for pt in rng.sample(points, 5):
+            hows = ['exit0', 'exit3', 'SIGKILL', 'SIGSEGV', 'kbint']
+            if pt.startswith('layer.'):
+                # SystemExit escapes from a layer hook (inside a test
+                # unittest turns it into an ordinary error)
+                hows += ['sysexit', 'sysexit0', 'sysexit0']
+            how = rng.choice(hows)
             plan = {'crash': {'at': pt, 'how': how}}
             w = common.run_world(spec, plan, {'processes': 2, 'verbose': 1},
                                  root=root)
